@@ -48,8 +48,9 @@ def render(case):
     prev_bare_id = False
     ref_kinds = set()
     collision = False
-    for s in case["stmts"]:
+    for si, s in enumerate(case["stmts"]):
         k = s["k"]
+        nxt = case["stmts"][si + 1]["k"] if si + 1 < len(case["stmts"]) else None
         if k not in ("fill", "longfill") and k not in ("id", "idpin") and k != "full" and (s["c"] % len(cases)) not in cited:
             k = "full"  # precondition of the statement: first cited in full
         if k in ("id", "idpin") and not cited:
@@ -60,6 +61,9 @@ def render(case):
             c = cases[i]
             pin = f", {c['page'] + s.get('pin', 0) % 20}" if s.get("pin", 0) % 3 == 0 else ""
             t = f"{LEADS[s.get('lead', 0) % 3]}{c['pl']} v. {c['df']}, {c['vol']} {c['rep']} {c['page']}{pin} ({c['year']})."
+            if s.get("join") == 0 and nxt == "full":
+                # a string cite: no year of its own, a comma, and the next case follows in the same sentence
+                t = t[:t.rindex(" (")] + ","
             if i not in cited:
                 cited.append(i)
             same = [x for x in cited if (cases[x]["canon"], cases[x]["vol"]) == (c["canon"], c["vol"])]
@@ -223,7 +227,7 @@ def scenario(draw, max_cases=5, max_stmts=9):
     stmt = st.fixed_dictionaries({
         "k": st.sampled_from(["full", "full", "short", "shortante", "supra", "id", "idpin", "fill", "ref", "longfill"]),
         "c": st.integers(0, 4), "pin": st.integers(0, 400), "party": st.integers(0, 1), "lead": st.integers(0, 2),
-        "comma": st.booleans(), "i": st.integers(0, 3), "range": st.integers(0, 3),
+        "comma": st.booleans(), "i": st.integers(0, 3), "range": st.integers(0, 3), "join": st.integers(0, 3),
     })
     stmts = draw(st.lists(stmt, min_size=1, max_size=max_stmts))
     return {"cases": cases, "stmts": stmts}
@@ -234,7 +238,7 @@ def scenario_text():
 
 
 SMALL_ALPHA = [
-    {"k": "full", "c": 0}, {"k": "full", "c": 1}, {"k": "short", "c": 0}, {"k": "short", "c": 1}, {"k": "shortante", "c": 0},
+    {"k": "full", "c": 0}, {"k": "full", "c": 1}, {"k": "full", "c": 0, "join": 0}, {"k": "short", "c": 0}, {"k": "short", "c": 1}, {"k": "shortante", "c": 0},
     {"k": "shortante", "c": 1, "party": 1}, {"k": "supra", "c": 0}, {"k": "supra", "c": 1, "party": 1}, {"k": "id"},
     {"k": "idpin", "pin": 0}, {"k": "idpin", "pin": 3}, {"k": "idpin", "pin": 5, "range": 2}, {"k": "ref", "c": 0}, {"k": "ref", "c": 1, "party": 1}, {"k": "fill"},
 ]
